@@ -824,13 +824,24 @@ def gen_C13_directed(rng, k):
         P += [C.query(0, q) for q in rng.sample(["var", "mean", "integral", "value_sums", "max"], 2)]
     d = F(0)
     kind = rng.choice(["shift", "shift", "copy", "neg", "addc", "mulc", "rmulc", "clipnone", "wherenone", "fills", "mask1", "sub0",
-                       "diff", "addself", "agg", "agg", "agg1", "cliphi_at", "cliphi_at", "wherehi_at", "aggwin_at"])
+                       "diff", "addself", "agg", "agg", "agg1", "cliphi_at", "cliphi_at", "wherehi_at", "aggwin_at",
+                       "rdivc", "rdivc", "rdivs", "divc", "rsubc", "relc"])
     if kind in ("agg", "agg1"):       # collection aggregates (their initial value comes out of a numpy reduction)
         g2 = rand_leaf(rng, maxn=3, nan=0.0, grid=1, span=6, vals=[F(j) for j in range(-1, 3)])
         P.append(leaf_stmt(2, g2, c))
         P.append(C.agg(1, rng.choice(["sum", "mean", "median", "min", "max", "logical_or", "logical_and"]), [0, 2] if kind == "agg" else [0]))
     elif kind == "rmulc":
         P.append(C.bin_(1, "mul", C.cst(1), C.reg(0)))
+    elif kind == "rdivc":         # scalar / f where f takes the value zero (6 and 12 divide exactly by every value of f)
+        P.append(C.bin_(1, "div", C.cst(rng.choice([F(6), F(12), F(-6)])), C.reg(0)))
+    elif kind == "rdivs":         # the same with a step-free Stairs on the left
+        P += [C.new(2, rng.choice([F(6), F(12)]), c), C.bin_(1, "div", C.reg(2), C.reg(0))]
+    elif kind == "divc":
+        P.append(C.bin_(1, "div", C.reg(0), C.cst(rng.choice([F(2), F(-1), F(1, 2)]))))
+    elif kind == "rsubc":
+        P.append(C.bin_(1, rng.choice(["sub", "add", "mul"]), C.cst(rng.choice([F(0), F(1), F(2)])), C.reg(0)))
+    elif kind == "relc":
+        P.append(C.bin_(1, rng.choice(C.REL + C.LOG), C.cst(rng.choice([F(0), F(1)])), C.reg(0)))
     elif kind in ("cliphi_at", "wherehi_at", "aggwin_at"):      # one-sided windows ending exactly on a step point of the operand
         pt = rng.choice(f[0])
         if kind == "cliphi_at":
@@ -895,7 +906,9 @@ def gen_C13(rng, tier):
         prog, regs, anynan = rand_program(rng, rng.randint(1, 2), kinds=["bin", "scal", "un", "clip", "mask", "where", "maskt",
                                                                          "fills", "fillm", "fillg", "shift"], reads=0.3)
         res = regs[-1]
-        ops = [r for r in regs[:-1]]
+        # every object bound so far is an operand to re-inspect, the intermediate ones (e.g. the 0/1-valued divisors) included
+        bound = sorted({s_["r"] for s_ in prog if s_["s"] not in ("layer", "read", "query") and "r" in s_})
+        ops = [r for r in bound if r != res]
         # unbounded clip / where((None, None)) / mask by a constant hand back copies, not operands
         if rng.random() < 0.25:
             a = rng.choice(regs)
